@@ -7,6 +7,7 @@ none in place, at most one otherwise); so the potential argument of Properties/C
 -/
 import SvModel.Properties.C14Uses
 import SvModel.Proofs.AllocCount
+import SvModel.Proofs.CtorCount
 import SvModel.Proofs.Examples
 
 namespace SvModel.C14
@@ -103,10 +104,72 @@ theorem l2_push_allocs_log (cfg : Cfg) (c : Nat) (hpol : StrongPolicy cfg) (vs :
     have hle : nAlloc w'.trace - nAlloc w.trace ≤ (pushN cfg.maxSize vs.length st).allocs := by omega
     exact Nat.le_trans (Nat.mul_le_mul_right _ (Nat.pow_le_pow_right (by omega) hle)) hpot
 
+/-- one push_back simulates the L1 step also on the CONSTRUCTION counter: at most 1 + (the L1 relocation increment) -/
+theorem push_simulates_ctor (cfg : Cfg) (c : Nat) (v : α) (w w' : World α) (r : Nat) (st : St) (b k : Nat)
+    (hcap : st.cap = (w.hdr c).cap) (hsize : st.size = (w.hdr c).size)
+    (hct : nCtor w.trace ≤ b + k + st.relocs) (hr : appendElement cfg c (.ext v) w = .ok r w') :
+    nCtor w'.trace ≤ b + (k + 1) + (push cfg.maxSize st).relocs := by
+  have h := appendElement_ctor_bound cfg c (.ext v) w
+  rw [hr] at h
+  simp only [Res.world] at h
+  unfold push
+  by_cases hlt : (w.hdr c).size < (w.hdr c).cap
+  · have hlt' : st.size < st.cap := by rw [hcap, hsize]; exact hlt
+    simp only [hlt', if_true]
+    rw [if_pos hlt] at h
+    omega
+  · have hlt' : ¬ st.size < st.cap := by rw [hcap, hsize]; exact hlt
+    simp only [hlt', if_false]
+    rw [if_neg hlt] at h
+    show nCtor w'.trace ≤ b + (k + 1) + (st.relocs + st.size)
+    omega
+
+theorem pushRun_simulates_ctor (cfg : Cfg) (c : Nat) (hpol : StrongPolicy cfg) :
+    ∀ (vs : List α) (w w' : World α) (st : St) (b k : Nat), Pre cfg w c → st.cap = (w.hdr c).cap → st.size = (w.hdr c).size →
+      nCtor w.trace ≤ b + k + st.relocs → pushRun cfg c vs w = some w' →
+      nCtor w'.trace ≤ b + (k + vs.length) + (pushN cfg.maxSize vs.length st).relocs
+  | [], w, w', st, b, k, _, _, _, hct, hr => by
+    injection hr with hr; subst hr
+    exact hct
+  | v :: vs, w, w', st, b, k, hp, hc, hs, hct, hr => by
+    unfold pushRun at hr
+    cases h1 : appendElement cfg c (.ext v) w with
+    | thrown e w1 => rw [h1] at hr; cases hr
+    | ok r w1 =>
+      rw [h1] at hr
+      obtain ⟨hp1, hc1, hs1, _⟩ := push_simulates cfg c v w w1 r st (nAlloc w.trace) hp hpol hc hs (Nat.le_add_right _ _) h1
+      have hct1 := push_simulates_ctor cfg c v w w1 r st b k hc hs hct h1
+      have := pushRun_simulates_ctor cfg c hpol vs w1 w' (push cfg.maxSize st) b (k + 1) hp1 hc1 hs1 hct1 hr
+      show nCtor w'.trace ≤ b + (k + (vs.length + 1)) + (pushN cfg.maxSize vs.length (push cfg.maxSize st)).relocs
+      omega
+
+/-- C14 on the L2 model, relocations: a run of n returning push_backs from any valid state adds at most
+    n + (capacity' − c0) construction events — the n new elements plus fewer than capacity' ≤ max c0 (2·size') relocated
+    ones: linear in n, for every inline capacity, start state, element flavour and allocator configuration -/
+theorem l2_push_constructions_linear (cfg : Cfg) (c : Nat) (hpol : StrongPolicy cfg) (vs : List α) (w w' : World α)
+    (hp : Pre cfg w c) (hm : 2 * ((w.hdr c).size + vs.length) < cfg.maxSize) (hr : pushRun cfg c vs w = some w') :
+    nCtor w'.trace - nCtor w.trace + (w.hdr c).cap ≤ vs.length + (w'.hdr c).cap ∧
+    (w'.hdr c).cap ≤ max (w.hdr c).cap (2 * ((w.hdr c).size + vs.length)) := by
+  let st : St := { cap := (w.hdr c).cap, size := (w.hdr c).size, allocs := 0, relocs := 0 }
+  have hI : Inv (w.hdr c).cap st :=
+    ⟨hp.vec.size_le, Nat.le_max_left _ _,
+     by show 2 ^ 0 * max (w.hdr c).cap 1 ≤ max (2 * (w.hdr c).cap) (max (w.hdr c).cap 1); simp only [Nat.max_def]; split <;> split <;> omega,
+     Nat.le_refl _⟩
+  have hct := pushRun_simulates_ctor cfg c hpol vs w w' st (nCtor w.trace) 0 hp rfl rfl (by show nCtor w.trace ≤ nCtor w.trace + 0 + 0; omega) hr
+  obtain ⟨_, hc', hs', _⟩ := pushRun_simulates cfg c hpol vs w w' st (nAlloc w.trace) hp rfl rfl (Nat.le_add_right _ _) hr
+  obtain ⟨hInv, hsz⟩ := pushN_inv cfg.maxSize (w.hdr c).cap vs.length st hI hm
+  have hrel := pushN_relocs cfg.maxSize (w.hdr c).cap vs.length st hI (by show 0 + (w.hdr c).cap ≤ (w.hdr c).cap; omega) hm
+  rw [hc'] at hrel
+  refine ⟨by omega, ?_⟩
+  have := hInv.cap
+  rw [hc', hsz] at this
+  exact this
+
 /-- non-vacuity: ten push_backs onto the full inline container [1, 2] (N = 2) of Proofs/Examples.lean all return, the
     capacity goes 2 → 4 → 8 → 16 and exactly three allocation events are added -/
 example : (match pushRun Ex.cfgT 0 [3, 4, 5, 6, 7, 8, 9, 10, 11, 12] Ex.w0 with
-           | some w' => (w'.hdr 0).size == 12 && (w'.hdr 0).cap == 16 && nAlloc w'.trace - nAlloc Ex.w0.trace == 3
+           | some w' => (w'.hdr 0).size == 12 && (w'.hdr 0).cap == 16 && nAlloc w'.trace - nAlloc Ex.w0.trace == 3 &&
+                        nCtor w'.trace - nCtor Ex.w0.trace == 10 + (2 + 4 + 8)
            | none => false) = true := by decide +kernel
 
 end SvModel.C14
